@@ -60,6 +60,14 @@ var (
 	GlobalVal = Val{N: 7, S: PkgID}
 )
 
+// Package-level symbols spelled like the local variables of generated code: a configuration may name any symbol of its
+// own package, and what the generated file declares for itself must not get in the way.
+var (
+	newService, c, getParam, dependencyService, rootGontainer = New, New, New, New, New                    // constructors
+	s, dependencyValue, callProvider, dependencyTag           = DecSame, DecSame, DecSame, DecSame          // decorators
+	getEnv, getEnvInt, paramTodo, concatenateChunks, dependencyProvider = Fn, Fn, Fn, Fn, Fn                 // parameter functions
+)
+
 func init() {
 	rec.OnReset(func() {
 		for _, o := range []*Obj{&Global, GlobalPtr, &Box.Inner, Box.Ptr} {
